@@ -270,12 +270,25 @@ def begin_run(D, policy=None, stall_p=None, timed=None, p_ext=0.0, keep_log=Fals
     _reset_loggers()
     seams.set_sim(sim)
     Individual.counter = 0
+    _reset_subclass_counters(Individual)
     sut_seed = D.dec('sut', 'seed', 1 << 30)
     random.seed(sut_seed)
     np.random.seed(sut_seed % (1 << 31))
     seams.RNG.begin(D, sut_seed, p_ext)
     sim.ev('begin', policy, stall_p, timed, sut_seed, line_p)
     return sim
+
+
+def _reset_subclass_counters(cls):
+    # should a subclass ever carry its own id counter (a class attribute forked from the base), a run must not inherit it
+    # from the runs that happened to precede it in this process
+    for sub in cls.__subclasses__():
+        if 'counter' in sub.__dict__:
+            try:
+                delattr(sub, 'counter')
+            except (AttributeError, TypeError):
+                pass
+        _reset_subclass_counters(sub)
 
 
 _runs = [0]
